@@ -195,6 +195,10 @@ def classify (c : Ctx) (e : Event) (cands : List (RState × XOut)) : List String
     else
       (["C02"] ++ cleanP, s!"observers and sweep not jointly explainable: impl size={e.obs.size}")
 
+/-- more simultaneous candidates than this and the script is given up as undecided (never as a
+failure): many expired-but-unreaped entries make the set of possible victims large -/
+def candLimit : Nat := 400
+
 def loop (c : Ctx) : List RState → Nat → List Event → Nat → Option Fail × Nat
   | _, _, [], mx => (none, mx)
   | cs, idx, e :: es, mx =>
@@ -203,6 +207,7 @@ def loop (c : Ctx) : List RState → Nat → List Event → Nat → Option Fail 
     if keep.isEmpty then
       let (ps, d) := classify c e cands
       (some ⟨idx, ps, d⟩, mx)
+    else if keep.length > candLimit then (none, keep.length)
     else loop c keep (idx + 1) es (max mx keep.length)
 
 /-- accept the events of one instance; also returns the largest candidate set seen -/
